@@ -169,7 +169,10 @@ class World(object):
         def boomer():
             raise ValueError('boom')
         # an application that takes no part in the history: nothing done to the others may change its behaviour
-        self.bystander = Application([('/boom', boomer)])
+        def nb():
+            from clastic.errors import NotFound
+            raise NotFound('not here', is_breaking=False)
+        self.bystander = Application([('/boom', boomer), ('/nb', nb)])
         self.boomer = boomer
         self.R1 = Route('/r1', self.eps['R1'])
         self.R2 = Route('/r2', self.eps['R2'], methods=['POST'])
@@ -283,6 +286,11 @@ class World(object):
     def check(self):
         """Invariant after every step.  Returns list of (kind, message)."""
         bad = []
+        # history: an application outside the history has just answered with a non-breaking error (what a static
+        # application does for a missing file); nothing of that may show in any other application
+        r = wsgi.call(self.bystander, '/nb', 'GET')
+        if r.raised is not None or r.code != 404:
+            bad.append(('bystander', 'the bystander application answered its non-breaking route with %s %r' % (r.status, r.raised)))
         if self.snapshot_routes() != self.snap:
             bad.append(('route-object-changed', 'a shared Route object was modified by binding'))
         if self.digest() != self.M.expected_digest():
